@@ -165,6 +165,20 @@ func init() {
 }
 
 func resolveVal(v string, filelen, soh, cert int) uint32 {
+	if strings.HasPrefix(v, "DWLEN") {
+		d := uint32(resolveDwLen)
+		switch v {
+		case "DWLEN+1":
+			d++
+		case "DWLEN+3":
+			d += 3
+		case "DWLEN+7":
+			d += 7
+		case "DWLEN-1":
+			d--
+		}
+		return d
+	}
 	switch v {
 	case "FILELEN-1":
 		return uint32(filelen - 1)
@@ -194,6 +208,7 @@ func resolveVal(v string, filelen, soh, cert int) uint32 {
 	return n
 }
 
+var resolveDwLen int // dwLength of the first certificate of the image being mutated
 var peBases map[string]*testImage
 
 func peBase(name string) (*testImage, []byte) {
@@ -232,8 +247,13 @@ func runPeBad(sc M) {
 	if ti.layout.bits == 32 {
 		ddoff, optsize = 96, 224
 	}
+	_ = ddoff
 	sectab := opt + optsize
 	certva := int(binary.LittleEndian.Uint32(b[img.dd4:]))
+	resolveDwLen = 0
+	if certva > 0 && certva+4 <= len(b) {
+		resolveDwLen = int(binary.LittleEndian.Uint32(b[certva:]))
+	}
 	for _, o0 := range list(sc, "overrides") {
 		o := o0.(M)
 		f := str(o, "f")
